@@ -26,21 +26,21 @@ UNITS = {
 }
 UNITS['seqg'] = dict(wrapper='w_grow.cpp', mode='seq', cut=SPIN_CUT)
 KIND = {'gb': 0, 'pb': 1, 'gtal': 2}
-def unit(kinds, table):
+def unit(kinds, table, K=None):
     """thread unit for a tuple of operation kinds; table=False: scenarios stay below index 8 (NT_CUT), True: real table extension"""
-    name = '_'.join(kinds) + ('_lt' if table else '_nt')
+    name = '_'.join(kinds) + ('_lt' if table else '_nt') + ('_k%d' % K if K else '')
     if name not in UNITS:
         th = {}; sfx = 'abc'
         for i, k in enumerate(kinds): th.setdefault('vp_thr_' + k, []).append(sfx[i])
-        UNITS[name] = dict(wrapper='w_grow.cpp', mode='lcs', unroll=(4 if table else 1), force_unroll=bool(table), threads=th, cut=(SPIN_CUT if table else NT_CUT))
+        UNITS[name] = dict(wrapper='w_grow.cpp', mode='lcs', unroll=(K or (4 if table else 1)), force_unroll=bool(table or K), threads=th, cut=(SPIN_CUT if table else NT_CUT))
     return name
-def grow(name, kinds, table, rounds, scen, tiers=('quick', 'thorough'), timeout=900, **kw):
+def grow(name, kinds, table, rounds, scen, tiers=('quick', 'thorough'), timeout=900, K=None, **kw):
     sfx = 'abc'
     d = {'NT': len(kinds), 'ROUNDS': rounds, 'memset': 'vp_memset'}
     for i, k in enumerate(kinds):
         d['T' + sfx[i].upper()] = 'vp_thr_%s_%s' % (k, sfx[i]); d['K' + sfx[i].upper()] = KIND[k]
     if not table: d['NOLONG'] = 1
-    h = dict(name=name, unit=unit(kinds, table), harness='h_grow.c', defines=d, scenarios=scen, tiers=list(tiers), timeout=timeout,
+    h = dict(name=name, unit=unit(kinds, table, K), harness='h_grow.c', defines=d, scenarios=scen, tiers=list(tiers), timeout=timeout,
              cbmc=['--unwind', '66', '--object-bits', '10'], mem_gb=8,
              desc='%s on one vector, %d free round-robin rounds + 2 forced rounds; %s' % (' || '.join(kinds), rounds,
                   'indices stay below the embedded-table limit' if not table else 'crossing the embedded-table limit (real extend_table_if_necessary / allocate_long_table)'),
@@ -64,7 +64,8 @@ def seqops(name, ops, maxd, pres, **kw):
     d.update(kw.pop('defines_extra', {}))
     h.update(kw); return h
 HARNESSES += [
-  seqops('seq_gb_gb', ('gb', 'gb'), 5, (0, 3, 6), defines_extra={'MIND': 1, 'TABW': 8, 'NODESTROY': 1}, cbmc=['--unwind', '8', '--unwindset', 'vp_memset.0:66,vp_memset.1:66', '--object-bits', '10']),
+  grow('single_gb', ('gb',), True, 0, [sc2(p, m, 5, MIND=1, MAXD=5, TABW=8, **({'PROBE': 0} if p else {})) for p, m in ((0, 0), (1, 0), (3, 0), (3, 1), (5, 1), (6, 0), (7, 0), (7, 1), (8, 1))], K=6),
+  #seqops('seq_gb_gb', ('gb', 'gb'), 5, (0, 3, 6), defines_extra={'MIND': 1, 'TABW': 8, 'NODESTROY': 1}, cbmc=['--unwind', '20', '--unwindset', 'vp_memset.0:66,vp_memset.1:66', '--object-bits', '10']),
   grow('pb2', ('pb', 'pb'), False, 2, [sc2(p, 0, 2, **({'PROBE': 0} if p else {})) for p in (0, 1, 2, 3)]),
   grow('pb_gb', ('pb', 'gb'), False, 2, [sc2(p, m, 4, **({'PROBE': 0} if p else {})) for p, m in ((0, 0), (1, 0), (3, 0), (3, 1))], tiers=('thorough',), timeout=3600),
   grow('pb2_table', ('pb', 'pb'), True, 1, [sc2(7, 0, 2, PROBE=0, TABW=8)]),
